@@ -1,7 +1,52 @@
-(* C20 -- property theorems only: each is closed by [exact] of a lemma proved elsewhere. *)
+(* C20 -- property theorems only: each is closed by [exact] of a lemma proved elsewhere.
+   Model: Pulse/PulseModel.v (util/PulseNode.{h,cpp}); oracles gt/pl = the virtual GetPulseTime()/Pulse(). *)
 From Coq Require Import List Arith NArith.
-From Muscle Require Import Pulse.PulseModel Pulse.PulseProofs.
+From Muscle Require Import Pulse.PulseModel Pulse.PulseInv Pulse.PulseOps Pulse.PulseSweep Pulse.PulseReach Pulse.PulseMin.
+Import ListNotations.
 
-Theorem C20_upd_same : forall m x n, upd m x n x = n.
-Proof. exact upd_same. Qed.
-Print Assumptions C20_upd_same.
+(* reach_inv: every state reachable by any history of create/attach/detach/clear/destroy/invalidate operations and
+   manager sweeps -- with Pulse() callbacks that may perform any such operations on any nodes, and GetPulseTime()
+   callbacks that are arbitrary functions performing no operations -- satisfies the invariants [Good]:
+   well-formed intrusive lists, sorted scheduled lists, exact aggregates of valid listed nodes, and every node
+   whose time is not valid is on its parent's needs-recalc list (hence on a needs-recalc path to its root). *)
+Theorem C20_reach_inv :
+  forall (gt : nat -> nat -> N -> N -> N * list cop) (pl : nat -> nat -> N -> N -> list cop),
+    (forall x k now prev, snd (gt x k now prev) = []) ->
+    forall f os s, run gt pl f init_state os = Some s -> Good nobody (nd s).
+Proof. exact reach_inv. Qed.
+Print Assumptions C20_reach_inv.
+
+(* the invariants survive every single operation a Pulse() callback (or anybody) performs, also in the middle of a
+   pulse sweep (G = the nodes whose PulseAux is running) *)
+Theorem C20_cop_preserves :
+  forall G f m o m', Good G m -> apply_cop f m o = Some m' -> Good G m'.
+Proof. exact apply_cop_good. Qed.
+Print Assumptions C20_cop_preserves.
+
+(* recalc_min: the wake-up time the root reports is the minimum of the times requested by all attached nodes, and
+   after the sweep every attached node has been asked (valid) and nothing awaits recalculation *)
+Theorem C20_recalc_min :
+  forall (gt : nat -> nat -> N -> N -> N * list cop),
+    (forall x k now prev, snd (gt x k now prev) = []) ->
+    forall f s r now s',
+      Good nobody (nd s) -> is_root (nd s) r = true -> top_get gt f s r now = Some s' ->
+      exists mn, hd_error (evs s') = Some (EMin r mn) /\ mn = agg (nd s' r) /\
+        Good nobody (nd s') /\
+        (forall y, desc (nd s') r y -> settled (nd s') y /\ (mn <= sched (nd s' y))%N) /\
+        (exists y, desc (nd s') r y /\ sched (nd s' y) = mn) /\
+        (forall y, parent (nd s' y) = parent (nd s y)).
+Proof. exact recalc_min. Qed.
+Print Assumptions C20_recalc_min.
+
+(* non-vacuity: a concrete history reaches a state with a three-level tree, and its recalculation reports 5 *)
+Definition ex_gt : nat -> nat -> N -> N -> N * list cop :=
+  fun x _ _ _ => (match x with 2 => 5%N | 1 => 9%N | _ => NEVER end, []).
+Definition ex_pl : nat -> nat -> N -> N -> list cop := fun _ _ _ _ => [].
+Definition ex_ops : list (top) :=
+  [TNew 0; TNew 1; TNew 2; TOp (CAttach 0 1); TOp (CAttach 1 2); TGet 0 1%N].
+
+Example C20_nonvacuous :
+  exists s, run ex_gt ex_pl 50 init_state ex_ops = Some s /\
+            parent (nd s 2) = Some 1 /\ parent (nd s 1) = Some 0 /\ is_root (nd s) 0 = true /\
+            hd_error (evs s) = Some (EMin 0 5%N).
+Proof. vm_compute. eexists. repeat split. Qed.
